@@ -45,7 +45,7 @@ def expect(c):
     if c['path'] == 'empty' and c['query'] != 'none':
         targets = ['/' + q for q in QUERY[c['query']][1]]
     return {'host': host[1], 'scheme': 'http', 'port': pc, 'targets': targets, 'authority': auth,
-            'absolute': 'http://' + auth + targets[0]}
+            'absolutes': ['http://' + auth + targets[0]]}
 
 
 def text_class(c):
@@ -56,7 +56,7 @@ def text_class(c):
 
 def enumerate_cases(max_odd):
     cfg = ('SPECIFICATION TextSpec\nCONSTANTS Hosts = {"h1"} Paths = {"a"} Schemes = {"http"} PortsC = {"def"} MaxRed = 1 '
-           'MaxHops = 1 FixCopy = FALSE Statuses = {200} MaxOdd = %d\nCONSTRAINT EmitText\nCHECK_DEADLOCK FALSE\n' % max_odd)
+           'MaxHops = 1 FixCopy = FALSE Statuses = {200} StartHosts = {"h1"} Refs = {"none"} SimMode = FALSE MaxOdd = %d\nCONSTRAINT EmitText\nCHECK_DEADLOCK FALSE\n' % max_odd)
     res = tlc.run_tlc('WebSessionGen', cfg, workers=2, timeout=600)
     tlc.require_ok(res, 'URL text case enumeration')
     cases = []
@@ -82,6 +82,8 @@ def run_one(sc):
     """sc: {'text': case, 'use': start|loc302|loc307}.  Returns a monitor trace."""
     c = sc['text']
     use = sc['use']
+    if use == 'cookie':
+        return run_cookie_case(c['cookie'])
     text = render(c)
     ascii_only = all(ord(ch) < 128 for ch in text)
     exp = expect(c)
@@ -116,6 +118,37 @@ def run_one(sc):
     return {'maxred': 3, 'ev': out}
 
 
+# Set-Cookie values a server may send (bytes as they appear on the wire, latin-1): what comes back in Cookie must
+# keep the request well formed and must stay with the host that set it
+COOKIE_VALUES = {'plain': b'v1', 'space': b'a b', 'tab': b'a\tb', 'quote': b'"a b"', 'comma': b'a,b', 'latin1': b'caf\xe9',
+                 'nul': b'a\x00b', 'del': b'a\x7fb', 'bare_cr': b'a\rX-Evil: 1', 'vt': b'a\x0bX-Evil: 1',
+                 'nel': b'a\x85X-Evil: 1', 'fold': b'a\r\n\tX-Evil: 1', 'long': b'x' * 3000, 'empty': b'', 'eq': b'a=b=c',
+                 'pct': b'%0D%0AX-Evil:%201'}
+
+
+def run_cookie_case(name):
+    from drivers.websession import expected
+    U = lambda h, p: {'scheme': 'http', 'host': h, 'port': 'def', 'path': p, 'creds': False}
+    head = (b'HTTP/1.1 302 Found\r\nLocation: ' + X.url_text(U('h1', 'b')).encode() + b'\r\nSet-Cookie: c_h1='
+            + COOKIE_VALUES[name] + b'; Path=/\r\nContent-Length: 0\r\n\r\n')
+    script = {'start': U('h1', 'a'), 'maxred': 3,
+              'steps': [{'status': 302, 'loc': U('h1', 'b'), 'raw': head},
+                        {'status': 302, 'loc': U('h2', 'a'), 'setcookie': False}, {'status': 200}]}
+    ev, outcome = X.run_script(script)
+    exps = [expected(U('h1', 'a')), expected(U('h1', 'b')), expected(U('h2', 'a'))]
+    out = []
+    k = 0
+    for e in ev:
+        e = dict(e)
+        if e['e'] == 'send':
+            e['exp'] = exps[min(k, 2)]
+            k += 1
+            e.pop('url', None)
+            e.pop('_authv', None)
+        out.append(e)
+    return {'maxred': 3, 'ev': out}
+
+
 def run_text_cases(chk, quick):
     cases, res = enumerate_cases(2 if quick else 3)
     chk.states += res['distinct']
@@ -128,4 +161,7 @@ def run_text_cases(chk, quick):
                 continue        # a Location field is ASCII; non-ASCII forms are only used as start URLs
             sc = {'text': c, 'use': use, 'text_class': text_class(c), 'url_text': text}
             runs.append(('text/' + use, sc, run_one(sc)))
+    for name in sorted(COOKIE_VALUES):
+        sc = {'text': {'cookie': name}, 'use': 'cookie', 'text_class': 'cookie=' + name}
+        runs.append(('text/cookie', sc, run_cookie_case(name)))
     return runs
